@@ -1,6 +1,6 @@
 import ArmiVerif.Gen.Src
 import ArmiVerif.Model.XsGroup
-import ArmiVerif.Props.SrcTie.EqXsNumberFromLabel
+import ArmiVerif.Props.SrcTie.XsLemmas
 open ArmiVerif ArmiVerif.Gen.Src ArmiVerif.PyInt
 set_option linter.unusedSimpArgs false
 
